@@ -35,6 +35,15 @@ def gen_case(rng, ndesc=5, nnames=8):
                 elif r < 0.4: d += '.'
             ds.append(d)
         descs.append(ds)
+    if rng.random() < 0.35:
+        # two (descriptor, name) pairs whose texts concatenate to the same string although only one of them matches ('ab'+'ab' / 'aba'+'b'):
+        # a session that answers from what it answered before must still tell them apart
+        pfx = rng.choice(TOK); q = 'ab'
+        d1, n1, d2, n2 = pfx, q, pfx + q[0], q[1:]
+        for n_ in ((n1, n2) if rng.random() < 0.5 else (n2, n1)):
+            if n_ in names: names.remove(n_)
+            names.insert(rng.randint(0, len(names)), n_)
+        i = rng.randint(0, len(descs)); descs.insert(i, [d1]); descs.insert(rng.randint(0, len(descs)), [d2])
     return descs, names
 
 
